@@ -5,11 +5,14 @@
      code 2 = the observed history violates the property predicate [spec_C19]. *)
 From Coq Require Import List NArith Bool Arith.
 Import ListNotations.
-From AnySync Require Export Model.StreamPool.
+From AnySync Require Export Model.StreamPool Model.StreamPoolHook.
 Open Scope N_scope.
 
 Inductive case :=
 | CHist (workers dcap : N) (ops : list hop) (observed : list obs)
+(* the same pool driven by an OWNER (lock order owner mutex -> pool.mu, close hook that takes the owner mutex and calls
+   back into the pool): Model/StreamPoolHook.v; every pool history of the harness is of this form *)
+| CHook (workers dcap : N) (ops : list hop2) (observed : list obs2)
 | CMq (cap : N) (ops : list mqop) (observed : list mqobs).
 
 (* monomorphic builders used by the generated case files (fast elaboration) *)
@@ -40,6 +43,13 @@ Definition nQ : list mqobs := [].
 Definition cQ (x : mqobs) (l : list mqobs) := x :: l.
 Definition nO : list obs := [].
 Definition cO (x : obs) (l : list obs) := x :: l.
+Definition pT (sid : N) (tags view : list N) : note := (sid, (tags, view)).
+Definition nT : list note := [].
+Definition cT (x : note) (l : list note) := x :: l.
+Definition nH2 : list hop2 := [].
+Definition cH2 (x : hop2) (l : list hop2) := x :: l.
+Definition nO2 : list obs2 := [].
+Definition cO2 (x : obs2) (l : list obs2) := x :: l.
 
 Fixpoint list_eqb {A} (e : A -> A -> bool) (a b : list A) : bool :=
   match a, b with
@@ -64,9 +74,16 @@ Definition obs_eqb (a b : obs) : bool :=
   && list_eqb N.eqb (o_closed a) (o_closed b) && list_eqb kv_eqb (o_removed a) (o_removed b)
   && snap_eqb (o_snap a) (o_snap b) && Bool.eqb (o_timely a) (o_timely b).
 
+Definition note_eqb (a b : note) : bool :=
+  (fst a =? fst b) && list_eqb N.eqb (fst (snd a)) (fst (snd b)) && list_eqb N.eqb (snd (snd a)) (snd (snd b)).
+Definition obs2_eqb (a b : obs2) : bool :=
+  obs_eqb (o2_base a) (o2_base b) && list_eqb note_eqb (o2_notes a) (o2_notes b)
+  && list_eqb N.eqb (o2_pending a) (o2_pending b).
+
 Definition model_ok (c : case) : bool :=
   match c with
   | CHist w d ops observed => list_eqb obs_eqb (model_hist (mkConfig w d) ops) observed
+  | CHook w d ops observed => list_eqb obs2_eqb (model_hist2 (mkConfig w d) ops) observed
   | CMq cap ops observed =>
       list_eqb (fun a b => (mo_err a =? mo_err b) && list_eqb pairNN_eqb (mo_takes a) (mo_takes b)
                            && list_eqb N.eqb (mo_threads a) (mo_threads b))
@@ -76,6 +93,7 @@ Definition model_ok (c : case) : bool :=
 Definition spec_ok (c : case) : bool :=
   match c with
   | CHist _ _ ops observed => spec_C19 ops observed
+  | CHook _ _ ops observed => spec_C19_hook ops observed
   | CMq _ _ observed => spec_C19_mq observed
   end.
 
@@ -96,3 +114,14 @@ Example smoke :
               HStreams [7; 8]; HCloseRelease 2; HStreams [7; 8]; HReadErr 1; HBroadcast [7]] in
   spec_C19 ops (model_hist (mkConfig 1 2) ops) = true.
 Proof. vm_compute. reflexivity. Qed.
+
+(* the owner layer: a stream ends inside the owner's section (hook parked), the owner changes tags of another stream and
+   broadcasts with the hook parked, leaves its section (hook returns, sees only the live stream) *)
+Example smoke_hook :
+  let ops := [H2 (HAddStream 1 1 [7] false); H2 (HAddStream 2 1 [7; 8] false); H2Lock; H2 (HReadErr 1);
+              H2 (HRemoveTags 2 [8] true); H2 (HBroadcast [7]); H2Unlock; H2 (HReadErr 2); H2 (HStreams [7])] in
+  spec_C19_hook ops (model_hist2 (mkConfig 1 2) ops) = true
+  /\ map (fun o => (map fst (o_removed (o2_base o)), o2_notes o, o2_pending o)) (model_hist2 (mkConfig 1 2) ops) =
+     [([], [], []); ([], [], []); ([], [], []); ([1], [], [1]); ([], [], [1]); ([], [], [1]);
+      ([], [(1, ([7], [2]))], []); ([2], [(2, ([7], []))], []); ([], [], [])].
+Proof. vm_compute. split; reflexivity. Qed.
